@@ -5,6 +5,7 @@ import (
 	"fmt"
 	"io"
 	"log"
+	"math"
 	"math/rand"
 	"runtime"
 	"sort"
@@ -436,6 +437,67 @@ func c08Builds(c *vk.Ctx, r *rand.Rand, docs []*model.Doc) []*c08Build {
 			}
 		}
 	}
+	// 11b the same kind of history (older versions replaced, junk inserted and deleted) under merge-happy
+	// options, one small batch at a time: merges run over segments that carry deletions and the reader is
+	// taken right after the background work settled, with no further batch (merged segments beside
+	// surviving ones that still have pending deletions)
+	{
+		dir := c.TempDir("c08-mhh-")
+		mem := r.Intn(2) == 0
+		var cfg bluge.Config
+		if mem {
+			cfg = bx.MergeHappy(bluge.InMemoryOnlyConfig(), true)
+		} else {
+			cfg = bx.MergeHappy(bluge.DefaultConfig(dir), r.Intn(2) == 0)
+		}
+		w, err := bluge.OpenWriter(cfg)
+		if err != nil {
+			fail("mergehappy-history", err)
+		} else {
+			var e error
+			for i, d := range docs {
+				b := bluge.NewBatch()
+				if i%2 == 0 {
+					old := *d
+					old.V = "old-" + d.V
+					old.Text = map[string]string{"t": "zzz a b"}
+					b.Update(bluge.Identifier(d.ID), old.ToBluge())
+				}
+				if i%3 == 0 {
+					junk := &model.Doc{ID: fmt.Sprintf("junk%d", i), V: "junk", Text: map[string]string{"t": "a b c"}, Kw: map[string][]string{"k": {"a"}}, Num: map[string][]float64{"n": {1}}}
+					b.Insert(junk.ToBluge())
+				}
+				if e == nil && (i%2 == 0 || i%3 == 0) {
+					e = w.Batch(b)
+				}
+			}
+			for i, d := range docs {
+				b := bluge.NewBatch()
+				b.Update(bluge.Identifier(d.ID), d.ToBluge())
+				if i%3 == 0 {
+					b.Delete(bluge.Identifier(fmt.Sprintf("junk%d", i)))
+				}
+				if e == nil {
+					e = w.Batch(b)
+				}
+				if i%4 == 3 {
+					waitQuiet(w) // let merges finish in between, so that later deletions hit merged segments
+				}
+			}
+			if len(docs) == 0 && e == nil {
+				e = w.Batch(bluge.NewBatch())
+			}
+			waitQuiet(w)
+			rd, err := w.Reader()
+			if e != nil || err != nil {
+				fail("mergehappy-history", fmt.Errorf("%v %v", e, err))
+				_ = w.Close()
+			} else {
+				segs, pend := layoutOf(rd)
+				out = append(out, &c08Build{name: "mergehappy-history-with-deletes", readers: []*bluge.Reader{rd}, merged: true, pending: pend, segments: segs, noScore: true, clean: func() { _ = rd.Close(); _ = w.Close() }})
+			}
+		}
+	}
 	// 12 the corpus partitioned over k indexes, searched with MultiSearch
 	if len(docs) > 0 {
 		k := 2 + r.Intn(3)
@@ -507,6 +569,12 @@ func c08Corpus(c *vk.Ctx, i int) {
 					vs[j] = 0
 				case v > 0 && v < 1e-300:
 					vs[j] = 0.25
+				default:
+					// dyadic values: sums of a few hundred of them are exact in any order
+					vs[j] = math.Round(v*1024) / 1024
+					if vs[j] == 0 {
+						vs[j] = 0
+					}
 				}
 			}
 			d.Num[f] = vs
